@@ -429,8 +429,15 @@ func register() {
 	})
 	mc.Register("u64", func(d mc.D) string {
 		u := d.U64("v")
-		if !bytes.Equal(secp256k1.NewScalarFromUint64(u).Bytes(), ref.B32(new(big.Int).SetUint64(u))) {
+		x := secp256k1.NewScalarFromUint64(u)
+		if !bytes.Equal(x.Bytes(), ref.B32(new(big.Int).SetUint64(u))) {
 			return "NewScalarFromUint64 wrong"
+		}
+		// the result is the caller's: used as an accumulator it changes no later result of the constructors
+		x.Add(x, mk(big.NewInt(6)))
+		x.Multiply(x, x)
+		if !bytes.Equal(secp256k1.NewScalarFromUint64(u).Bytes(), ref.B32(new(big.Int).SetUint64(u))) || secp256k1.NewScalar().IsZero() != 1 {
+			return "after the caller modified a scalar returned by NewScalarFromUint64, the constructors answer differently (shared object handed out)"
 		}
 		return ""
 	})
@@ -765,6 +772,10 @@ func exploreDecode(sc []mc.Val) {
 			R.Mismatch("scalar/decode", "decode", m, mc.D{"bytes": hexv(x)})
 		}
 	}
+	// every combination of structured 64-bit words (limb-wise comparisons with a wrong operator, a skipped limb, a truncated word)
+	wp := mc.WordPatternStrings(ref.N)
+	xs = append(xs, wp...)
+	R.Class("decode/word-pattern strings (11^4)", int64(len(wp)))
 	mc.Par(len(xs), func(i int) { check(xs[i]); st(xs[i]) })
 	n += int64(len(xs))
 	nshard := 64
